@@ -6,6 +6,7 @@ use mcx::{Ctx, Tier};
 
 mod util;
 
+mod c03;
 mod c06;
 mod c10;
 mod c13;
@@ -23,6 +24,7 @@ struct Check {
 
 fn checks() -> Vec<Check> {
     vec![
+        Check { id: "C03", level: "model_checking", run: c03::run, replay: Some(c03::replay) },
         Check { id: "C06", level: "model_checking", run: c06::run, replay: Some(c06::replay) },
         Check { id: "C10", level: "model_checking", run: c10::run, replay: Some(c10::replay) },
         Check { id: "C13", level: "model_checking", run: c13::run, replay: Some(c13::replay) },
@@ -80,6 +82,9 @@ fn main() {
                     std::process::exit(2);
                 }
             }
+        }
+        "c03-pure-child" => {
+            c03::pure_child();
         }
         "selftest" => {
             util::selftest();
